@@ -234,6 +234,16 @@ fn check(cx: &mut Ctx, c: &Case) -> R {
     cx.check(all == *v, "iter", || format!("iter() differs (k={k} n={n}, got {} items)", all.len()))?;
     let all: Vec<String> = cx.must("into_iter", || (&l).into_iter().collect())?;
     cx.check(all == *v, "into_iter", || format!("(&list).into_iter() differs (k={k} n={n})"))?;
+    // the rest of the Iterator protocol (nth, skip, step_by, count, last, ...) against the input's iterator
+    if v.iter().map(|s| s.len()).sum::<usize>() <= 200_000 {
+        let it = cx.must("iter", || l.iter())?;
+        iter_protocol(cx, "iter", it, v, c.seed ^ n as u64)?;
+        let j = (c.seed >> 13) as usize % (n + 1);
+        let it = cx.must("iter_from", || l.iter_from(j))?;
+        iter_protocol(cx, "iter_from", it, &v[j..], c.seed.rotate_left(29) ^ j as u64)?;
+        let it = cx.must("into_iter_from", || (&l).into_iter_from(j))?;
+        iter_protocol(cx, "into_iter_from", it, &v[j..], c.seed.rotate_left(47) ^ j as u64)?;
+    }
     {
         let mut le = cx.must("into_lender", || (&l).into_lender())?;
         for (i, s) in v.iter().enumerate() {
@@ -325,7 +335,7 @@ impl Property for C09 {
         900
     }
     fn rule(&self) -> &'static str {
-        "case = (block size k in {1,2,3,4,8,16,n-1,n,n+1,..20}, n strings without NUL built as prefix families over 6 alphabets (a/b, ASCII, 2/3/4-byte UTF-8, low code points) with lengths around 127..130 (thorough: a family with >=16512-byte suffixes), order in {sorted, reversed, sorted with duplicates, unsorted}, push or extend) decoded from bytes; oracle = the Vec<String>; observed len, get, get_in_place for every i, iter/into_iter/into_lender/lend, iter_from/lend_from/into_iter_from for every start 0..=n (sampled above 80) with len/size_hint before every next, index_of/contains for stored strings, prefixes, extensions, neighbours and strings between neighbours. Plus an enumerated segment of lists whose rear lengths sit at and inside the 3- and 4-byte variable-byte regimes (16512, 2113664 +-2, up to 6 MB strings; thorough: 270549120 +-2, the 5-byte regime, 270 MB strings). Non-trivial: n>=2 with a non-empty shared prefix between two consecutive strings, or labels n=0, n%k=0, rear>=128, dups, unsorted, multibyte; distinct = distinct hash of the decoded case."
+        "case = (block size k in {1,2,3,4,8,16,n-1,n,n+1,..20}, n strings without NUL built as prefix families over 6 alphabets (a/b, ASCII, 2/3/4-byte UTF-8, low code points) with lengths around 127..130 (thorough: a family with >=16512-byte suffixes), order in {sorted, reversed, sorted with duplicates, unsorted}, push or extend) decoded from bytes; oracle = the Vec<String>; observed len, get, get_in_place for every i, iter/into_iter/into_lender/lend, iter_from/lend_from/into_iter_from for every start 0..=n (sampled above 80) with len/size_hint before every next, index_of/contains for stored strings, prefixes, extensions, neighbours and strings between neighbours. Plus an enumerated segment of lists whose rear lengths sit at and inside the 3- and 4-byte variable-byte regimes (16512, 2113664 +-2, up to 6 MB strings; thorough: 270549120 +-2, the 5-byte regime, 270 MB strings). Every iterator is also driven through a generated script of next/nth/size_hint steps and one consuming adaptor (count, last, collect, step_by, skip, fold) in lock-step with the model's iterator. Non-trivial: n>=2 with a non-empty shared prefix between two consecutive strings, or labels n=0, n%k=0, rear>=128, dups, unsorted, multibyte; distinct = distinct hash of the decoded case."
     }
     fn run(&self, data: &[u8], cx: &mut Ctx) -> R {
         let (mode, rest) = data.split_first().unwrap_or((&0, &[]));
